@@ -115,7 +115,7 @@ def domain(fn, a):
     return "ok"
 
 
-LARGE = {"f_CSd": 300.0, "f_CSu": 500.0, "FCWl": 500.0}
+LARGE = {"f_CSd": 300.0, "f_CSu": 500.0, "FCWl": 150.0}
 QDRT_EPS = (10 * 2.0 ** -52) ** 0.25            # luv(): switch to the small-u series l0v / lv0
 
 
@@ -151,7 +151,9 @@ def _in_phi_over_y_window(xu, xd):
 
 
 def _cs_class(xu, xd):
-    if _near_lambda0(xd, xu, 1.0) and not _in_phi_over_y_window(xu, xd):
+    # phi_over_y()'s window is relative to xd: too narrow for small xd (0/0-like quotient right outside),
+    # too wide for xd >~ 100 (the value on the curve is used up to 1e-8 xd away from it)
+    if _near_lambda0(xd, xu, 1.0) and (not _in_phi_over_y_window(xu, xd) or max(xu, xd) >= 100.0):
         return "near-lambda0"
     return _phi_class(xd, xu, 1.0)
 
@@ -288,23 +290,42 @@ def fx_job(job):
     """job = (exe, fn, na, setup_text, tr, cmds[(label, text)], W, keep_nd)
     Runs one harness process, parses it, judges the relations on every point, thins the +-W ulp
     neighbourhoods to ulp distances in keep_nd.  Returns a compact dict."""
-    exe, fn, na, setup, tr, cmds, W, keep_nd = job
+    exe, fn, na, setup, tr, cmds, W, keep_nd, oset = job
+    import tempfile
     import time
     tj0 = time.time()
     inp = (setup + "\n" if setup else "") + "\n".join(c[1] for c in cmds) + "\n"
-    p = subprocess.run([exe], input=inp, stdout=subprocess.PIPE, stderr=subprocess.PIPE, text=True, timeout=3000)
+    with tempfile.TemporaryFile("w+") as fin:
+        fin.write(inp)
+        fin.seek(0)
+        del inp
+        proc = subprocess.Popen([exe], stdin=fin, stdout=subprocess.PIPE, stderr=subprocess.DEVNULL, text=True, bufsize=1 << 20)
+        try:
+            res = _parse_fx(proc.stdout, fn, na, 1 if setup else 0, tr, cmds, W, keep_nd, oset)
+        finally:
+            proc.stdout.close()
+            rc = proc.wait()
+    if rc != 0:
+        return {"error": "fx harness exit %d (%s)" % (rc, fn)}
+    if "error" not in res:
+        res["t"] = (time.time() - tj0, 0.0, len(cmds), cmds[0][0])
+    return res
+
+
+def _parse_fx(stream, fn, na, nsetup, tr, cmds, W, keep_nd, oset):
+    import time
     tj1 = time.time()
-    if p.returncode != 0:
-        return {"error": "fx harness exit %d: %s" % (p.returncode, (p.stdout[-300:] + p.stderr[-300:]))}
-    nsetup = 1 if setup else 0
-    seeds = {}            # args -> (out, sig, label)
+    seeds = {}            # args -> (out, sig, label)   only points wanted by the oracle / zero arguments / physical points
+    seen = set()
+    domc = {}
+    nonfin = []
     bds = []              # (label, ta, tb, sa, sb, [(nd, side, args, out, sig)])
     caps, relfails, sigs = [], [], set()
-    npts = nrel = nmis = nonfin = 0
+    npts = nrel = nmis = 0
     ci = -nsetup
     cur_bd, pos = None, 0
-    for ln in p.stdout.split("\n"):
-        if not ln:
+    for ln in stream:
+        if len(ln) < 2:
             continue
         c0 = ln[0]
         if c0 == "P":
@@ -328,8 +349,16 @@ def fx_job(job):
                             relfails.append((r[0], args, out, idx, v, r[1], r[2]))
             tag = tk[1]
             if tag == "S":
-                if args not in seeds:
-                    seeds[args] = (out, sig, cmds[ci][0])
+                h = hash(args)
+                if h not in seen:
+                    seen.add(h)
+                    label = cmds[ci][0]
+                    dm = domain(fn, args)
+                    domc[dm] = domc.get(dm, 0) + 1
+                    if dm == "ok" and not math.isfinite(out) and args not in oset and len(nonfin) < 500:
+                        nonfin.append((args, out))
+                    if args in oset or dm == "zero" or label == "phys":
+                        seeds[args] = (out, sig, label)
                 cur_bd = None
             else:
                 if cur_bd is not None:
@@ -354,7 +383,7 @@ def fx_job(job):
     if ci != len(cmds):
         return {"error": "fx harness: %d results for %d commands (%s)" % (ci, len(cmds), fn)}
     return {"fn": fn, "seeds": seeds, "bds": bds, "caps": caps, "relfails": relfails, "sigs": sigs,
-            "npts": npts, "nrel": nrel, "nmis": nmis, "t": (tj1 - tj0, time.time() - tj1, len(cmds), cmds[0][0])}
+            "npts": npts, "nrel": nrel, "nmis": nmis, "domc": domc, "nonfin": nonfin}
 
 
 # ------------------------------------------------------------------ oracle workers
@@ -485,7 +514,10 @@ class Plan:
         ts = _u(list(ts) + list(ots))
         if len(ts) < 1:
             return
-        self.cmds.append(_cmd_line(self.fn, label, self.W, base, coef, ts))
+        # the harness caps a line command at 64 boundaries: long seed lists are split into overlapping segments
+        seg = 96
+        for i in range(0, max(1, len(ts) - 1), seg):
+            self.cmds.append(_cmd_line(self.fn, label, self.W, base, coef, ts[i:i + seg + 1]))
         self.nlines += 1
         for t in ots:
             self.oset.add(_line_args(base, coef, t))
@@ -759,10 +791,14 @@ def run(ctx):
         nchunk = 1 if len(P.cmds) < 200 else min(8, len(P.cmds) // 150)
         size = (len(P.cmds) + nchunk - 1) // nchunk
         for i in range(0, len(P.cmds), size):
-            jobs.append((exe, P.fn, nargs[P.fn][0], xfset_text(P.fn, tr) if tr else "", tr, P.cmds[i:i + size], W, keep_nd))
+            jobs.append([exe, P.fn, nargs[P.fn][0], xfset_text(P.fn, tr) if tr else "", tr, P.cmds[i:i + size], W, keep_nd, None])
     oset = {}
     for P in plans + phys:
         oset.setdefault(P.fn, set()).update(P.oset)
+    for j in jobs:
+        j[8] = frozenset(oset[j[1]])
+    for P in plans + phys:
+        P.cmds = None
     physfn = {}
     for P in phys:
         physfn[P.fn] = True
@@ -773,15 +809,17 @@ def run(ctx):
     pool = mp.Pool(min(16, os.cpu_count() or 4))
     try:
         results = pool.map(fx_job, jobs, chunksize=1)
+        jobs = None
         if verbose:
             print("[c02] harness phase %.1fs, %d jobs" % (time.time() - t0, len(jobs)), file=sys.stderr)
             for r in results:
-                print("[c02]   job %s: harness %.1fs parse %.1fs, %d cmds (first %s), %d pts" % ((r["fn"],) + r["t"] + (r["npts"],)), file=sys.stderr)
+                print("[c02]   job %s: %.1fs, %d cmds (first %s), %d pts" % (r["fn"], r["t"][0], r["t"][2], r["t"][3], r["npts"]), file=sys.stderr)
         for r in results:
             if "error" in r:
                 raise InfraError(r["error"])
 
         seeds = {fn: {} for fn in ALL}
+        dom_counts = {}
         bds = {fn: [] for fn in ALL}
         sigs = {fn: set() for fn in ALL}
         npts = {fn: 0 for fn in ALL}
@@ -790,6 +828,12 @@ def run(ctx):
             fn = r["fn"]
             for a, v in r["seeds"].items():
                 seeds[fn].setdefault(a, v)
+            for dm, c in r["domc"].items():
+                dom_counts[(fn, dm)] = dom_counts.get((fn, dm), 0) + c
+            for a, out in r["nonfin"]:
+                ctx.fail(acc_key(fn, a).replace(":acc", ":nonfinite", 1), "%s%r = %r inside the domain" % (fn, a, out),
+                         {"fn": fn, "args": [hexf(x) for x in a], "kind": "accuracy"})
+            r["seeds"] = None
             bds[fn] += r["bds"]
             sigs[fn] |= r["sigs"]
             npts[fn] += r["npts"]
@@ -840,7 +884,6 @@ def run(ctx):
             return "ok"
 
         undocumented, counts = {}, {}
-        dom_counts = {}
         maxjump = {}
         nbd = 0
         bd_sel = 0
@@ -849,13 +892,8 @@ def run(ctx):
             # seeds
             for a in sorted(seeds[fn]):
                 out, sig, label = seeds[fn][a]
-                dm = domain(fn, a)
-                dom_counts[(fn, dm)] = dom_counts.get((fn, dm), 0) + 1
-                if dm == "ok" and not math.isfinite(out) and a not in oset[fn]:
-                    ctx.fail(acc_key(fn, a).replace(":acc", ":nonfinite", 1), "%s%r = %r inside the domain" % (fn, a, out),
-                             {"fn": fn, "args": [hexf(x) for x in a], "kind": "accuracy"})
-                if a in oset[fn] or dm == "zero" or label == "phys":
-                    add_task(fn, a, out, label)
+                add_task(fn, a, out, label)
+            seeds[fn] = None
             # boundaries
             bykey = {}
             for b in bds[fn]:
@@ -1004,7 +1042,8 @@ def replay(ctx, path):
     cmds = [("replay", _cmd_pts(fn, "replay", [a])[1])]
     if d.get("args_b"):
         cmds.append(("replay", _cmd_pts(fn, "replay", [tuple(unhex(x) for x in d["args_b"])])[1]))
-    r = fx_job((exe, fn, nargs[fn][0], xfset_text(fn, tr) if tr else "", tr, cmds, 0, frozenset([0])))
+    pts_ = frozenset([a] + ([tuple(unhex(x) for x in d["args_b"])] if d.get("args_b") else []))
+    r = fx_job((exe, fn, nargs[fn][0], xfset_text(fn, tr) if tr else "", tr, cmds, 0, frozenset([0]), pts_))
     if "error" in r:
         raise InfraError(r["error"])
     out = r["seeds"][a][0]
